@@ -116,9 +116,14 @@ CHECKS = {
            'with TableException. Deductive part (Tier A): Table.__init__ for a scipy matrix as data (fresh float csr matrix with '
            'the cells of the input, ids installed as given, metadata entry by entry or absent when no entry holds anything, '
            'lookups rebuilt from the ids, the new table validated exactly when validate is set) - this is the constructor '
-           'contract every table-producing method relies on. The other input forms (dense, lists, dicts, coordinate lists) '
-           'and the *_to_sparse converters are bounded only (the error profile that turns a triggered structural test into '
-           'the table error is proved under C20).', technique=TECH),
+           'contract every table-producing method relies on. The coordinate routes: coo_arrays_to_sparse, list_list_to_sparse '
+           '(coordinate triples) and dict_to_sparse (coordinate dictionary, a loop over a dict with tuple keys) - over an '
+           'assumed, natively probed contract of scipy.sparse.coo_matrix: the result is a csr matrix without stored zeros of '
+           'the shape asked for (or largest index + 1 per axis), every coordinate named once holds its value, every cell no '
+           'coordinate names is zero, and ValueError is raised only for an empty input without shape, a negative index or an '
+           'index outside the requested shape. The dispatcher Table._to_sparse and the dense / row-wise converters '
+           '(nparray_, list_nparray_, list_sparse_, list_dict_to_sparse) are bounded only (the error profile that turns a '
+           'triggered structural test into the table error is proved under C20).', technique=TECH),
  'C18': _b('Contracts of add_metadata / del_metadata (exactly the named ids and keys), MetadataMap.from_file on files from '
            'the row grammar, _add_metadata. Deductive part (Tier A; per-id metadata modelled as a tuple of dicts held by value): '
            'Table.add_metadata (every key of the mapping entry of an id is set / overwritten on that id, every other key and '
